@@ -9,6 +9,7 @@ PROPS = {}
 
 NOT_APPLICABLE = {
     "C01": "whole-transaction equivalence with the execution specification: needs the entire spec as oracle and an invariant of the unbounded interpreter loop through dyn handler tables; no function-level contract can state it. Decidable fragments are claimed as C02-C05, C09-C14, C32, C34.",
+    "C19": "both mechanisms that carry it are outside the verifiers' reach: `From<BundleAccount> for CacheAccount` is an iterator-adapter chain (.iter().map(|(k, v)| ..).collect(), tuple-pattern closures: rejected by Verus) and `State::load_cache_account` reaches it through .cloned().map(Into::into); Kani cannot compile crate revm (internal compiler error). What remains verifiable (read functions of CacheAccount/BundleAccount, reported under C15) says nothing about bundle preloading.",
     "C24": "agreement of alternative cryptographic back ends: both sides are foreign code (C FFI / external crates) selected by mutually exclusive cargo features; no repository function carries a contract relating them and neither verifier executes FFI.",
     "C28": "relational property between two whole executions (with / without inspector) implemented by closures wrapping every instruction-table entry and Arc<dyn Fn> handlers; no function boundary carries it.",
     "C29": "trace property over calls on a dyn Inspector made from closures sharing Rc<RefCell<Vec>> stacks across the frame loop; needs ghost call history on an external trait object, outside Verus (Rc<RefCell>, dyn Fn) and Kani (unbounded loop).",
